@@ -101,7 +101,7 @@ class Runner:
         return None
 
     def trace(self):
-        return T.trace_dict(self.prog, self.knob, self.ev)
+        return dict(T.trace_dict(self.prog, self.knob, self.ev), skipped_defective=getattr(self, 'defective', 0))
 
 
 def scenario(args):
@@ -139,6 +139,75 @@ def scenario_runner(args):
             R.do({'op': 'trace', 'a': c, 'l0': [1], 'l1': [0]})
         R.do({'op': 'unfuse', 'a': a, 'axes': [0, 1]})
         return R
+    if kind == 'S9':
+        # contraction over BLOCKED, NESTED hard-fused legs with different sector content (sum of products of spaces: intersection masks over a tree s(p(l0 p(l1 l2)) ...)):
+        # 2-6 pairs (x_k, y_k) of rank-4 operands, legs of y_k drawn as other subsets of the same universes; reference = sum_k x_k . conj(y_k) over the three legs, built
+        # from validated tensordot / lincomb events; the route through fuse (nested) -> block -> one tensordot must give the same tensor
+        u9 = universe_legs(sym, rng, 4)
+        sg = [rng.choice((1, -1)) for _ in range(4)]
+        npair = rng.choice((2, 3, 4, 5, 5, 6))
+        nest9 = rng.choice(('right', 'right', 'left', 'flat', 'post', 'post', 'post'))
+        if nest9 == 'post' and T.SYMS[sym]:
+            # open leg wide enough to take every combination of the three fused legs (so that E, with two sectors, leaves sectors of the blocked space to be dropped)
+            u9 = list(u9)
+            u9[3] = {T.fuse_charge(T.SYMS[sym], [a_, b_, c_], [sg[0] * -sg[3], sg[1] * -sg[3], sg[2] * -sg[3]]): 1 for a_ in u9[0] for b_ in u9[1] for c_ in u9[2]}
+        full9 = lambda n: [(t, u9[n][t]) for t in sorted(u9[n])]
+        # 'post' (the blocked leg is fused once more, with l2): on the y side the open leg of the blocked tensor is first contracted with a narrow matrix E (one or two sectors),
+        # which removes blocks, so that the product p(s(...) l2) drops sectors of the blocked space on the y side only - the record of the sum node then lists fewer
+        # charges than its summands produce (this is what fpeps.add followed by a gate does to a bond)
+        sts, n0 = [], (tuple(0 for _ in T.SYMS[sym]) if nest9 == 'post' and T.SYMS[sym] else None)
+        for k in range(2 * npair):
+            lg = [subset_leg(u9[n], rng) if rng.random() < 0.7 else full9(n) for n in range(3)] + [full9(3)]
+            adm = T.admissible_charges(sym, sg, lg)
+            if n0 is None:
+                n0 = rng.choice(adm)
+            if n0 not in adm:
+                lg = [[(t, u9[n][t]) for t in sorted(u9[n])] for n in range(4)]
+                if n0 not in T.admissible_charges(sym, sg, lg):
+                    break
+            # (sparse y operands in 'post': an allowed block (S=c, l2=q) must be absent on the y side while c and q are present elsewhere)
+            st = init_struct(sym, sg, lg, rng, dtype='float64' if rng.random() < 0.8 else 'complex128', density=0.5 if nest9 == 'post' and k >= npair else 1.0)
+            st['n'] = n0
+            sts.append(st)
+        if len(sts) < 2 * npair:
+            kind = 'S1'
+        else:
+            em = None
+            if nest9 == 'post':
+                sub = subset_leg(u9[3], rng)
+                sub = sub[:2] if len(sub) >= 2 else full9(3)[:2]
+                if rng.random() < 0.7:
+                    # targeted sparsity: every y block whose (l0 l1) charge is c and whose open charge survives E is left out, so that c disappears from the y side's record
+                    # of the blocked space after the second fusion, although the summands still produce it (through blocks that E removes)
+                    mod9 = T.SYMS[sym]
+                    keepo = {tuple(t) for t, _ in sub}
+                    allow = [[c_ for c_ in itertools.product(*st_['legs']) if T.fuse_charge(mod9, [x[0] for x in c_], sg) == tuple(n0)] for st_ in sts[npair:]]
+                    cs = sorted({T.fuse_charge(mod9, [c_[0][0], c_[1][0]], sg[:2]) for al in allow for c_ in al})
+                    if cs:
+                        c9 = rng.choice(cs)
+                        for st_, al in zip(sts[npair:], allow):
+                            st_['blocks'] = [[list(x[0]) for x in c_] for c_ in al
+                                             if not (T.fuse_charge(mod9, [c_[0][0], c_[1][0]], sg[:2]) == c9 and tuple(c_[3][0]) in keepo)]
+                ste = init_struct(sym, [-sg[3], sg[3]], [sub, sub], rng, dtype='float64', density=1.0)
+                ste['n'] = tuple(0 for _ in T.SYMS[sym])
+                sts.append(ste)
+                em = len(sts) - 1
+            R = Runner(sym, seed, sts, knob=KNOBS[(seed // 7) % len(KNOBS)])
+            xs, ys = list(range(npair)), list(range(npair, 2 * npair))
+            acc = None
+            for x_, y_ in zip(xs, ys):
+                if em is not None:
+                    y_ = R.do({'op': 'tensordot', 'a': y_, 'b': em, 'la': [3], 'lb': [0], 'conj': [0, 0]})
+                    if y_ is None:
+                        return R
+                d = R.do({'op': 'tensordot', 'a': x_, 'b': y_, 'la': [0, 1, 2], 'lb': [0, 1, 2], 'conj': [0, 1]})
+                if d is None:
+                    return R
+                acc = d if acc is None else R.do({'op': 'lincomb', 'a': acc, 'b': d, 'amp': [[1, 0], [1, 0]]})
+                if acc is None:
+                    return R
+            R.do(dict({'op': 'route', 'a': acc, 'how': 'blockdot', 'xs': xs, 'ys': ys, 'nest': nest9}, **({'em': em} if em is not None else {})))
+            return R
     if kind == 'S8':
         # yastn.block: 2-4 operands (same signature and charge, legs drawn as subsets of one universe per leg and position) placed on a grid along 1-2 blocked legs,
         # the other legs common; the super-tensor must hold every element of every operand at the label shifted by the dimensions of the earlier positions; then the
@@ -432,7 +501,7 @@ def main(tier, seed, replay=None):
     rep.cov['rule'] = ('scenario programs S1 (binary ops over identically fused legs with equal/overlapping/disjoint sector content), S2 (trace over fused legs), '
                        'S3 (incompatibly fused operands must be rejected), S4 (fuse to depth<=3 / unfuse roundtrip, norm), S5 (sparse operands contracted in place over 2-3 legs, original vs fused) in all symmetries and configurations, hard/meta/mixed fusion, '
                        'with lazy transpositions; non-trivial = event on a fused operand (or a fuse/unfuse event) with >= 1 element')
-    kinds = ['S1', 'S1', 'S1', 'S2', 'S3', 'S4', 'S5', 'S6', 'S7', 'S8']
+    kinds = ['S1', 'S1', 'S1', 'S2', 'S3', 'S4', 'S5', 'S6', 'S7', 'S8', 'S9']
     if replay:
         rep.write_evidence = False
         import json
